@@ -487,11 +487,29 @@ class SyncWorld(World):
         """server.send(sid, next payload) - called from a task."""
         n = self.sent[slot] + 1
         so = self.socks.get(slot)
-        before = self._queue_items(so)[:] if so is not None else []
-        self.server.send(self.sids[slot], srv_payload(slot, n))
-        after = self._queue_items(so) if so is not None else []
-        if len(after) > len(before) and after[-1] is not None and \
-                self._pkt_token(slot, after[-1]) == 'M%d' % n and not so.closed:
+        if so is None:
+            self.server.send(self.sids[slot], srv_payload(slot, n))
+            return
+        # accepted = the packet carrying this payload was put on the session's queue during
+        # the call (watching the put itself: under pre-emptive schedules a poll may already
+        # have taken it again when send() returns)
+        seen = []
+        q = so.queue
+        orig = q.put
+
+        def put(item, *a, **k):
+            if item is not None and self._pkt_token(slot, item) == 'M%d' % n:
+                seen.append(1)
+            return orig(item, *a, **k)
+        q.put = put
+        try:
+            self.server.send(self.sids[slot], srv_payload(slot, n))
+        finally:
+            try:
+                del q.put
+            except AttributeError:
+                pass
+        if seen:
             self.sent[slot] = n
 
     def _queue_items(self, so):
